@@ -174,7 +174,11 @@ def gate_aliases(idx: Index, ci: ClassInfo) -> Set[str]:
 
 GATE_ALLOWED_CALLS = {"split", "strip", "lower", "upper", "get", "make_response", "len", "startswith",
                       "partition", "removeprefix", "compare_digest", "isinstance", "str", "encode",
-                      "jsonify", "abort", "dumps", "format"}
+                      "jsonify", "abort", "dumps", "format",
+                      # pure string searches, type tests, an empty container, constant-time comparison
+                      "find", "rfind", "count", "type", "dict", "endswith", "bool"}
+# writing a log line touches no session and no instance: not an effect the property speaks about
+GATE_LOG_CALLS = {"debug", "info", "warning", "error", "exception", "log"}
 
 
 def _is_token_attr(e: ast.AST) -> bool:
@@ -196,6 +200,18 @@ def _token_compare(atom: ast.AST) -> Optional[ast.AST]:
         if _mentions_token(b) and not _mentions_token(a):
             return a
     return None
+
+
+def _token_equality(e: ast.AST) -> Optional[ast.AST]:
+    """The other side when the *value* of e is true exactly when something equals the configured token:
+    x == token, not (x != token), compare_digest(x[.encode(..)], token[.encode(..)])."""
+    if isinstance(e, ast.UnaryOp) and isinstance(e.op, ast.Not) and isinstance(e.operand, ast.Compare) and len(e.operand.ops) == 1 \
+            and isinstance(e.operand.ops[0], ast.NotEq):
+        return _token_compare(ast.Compare(left=e.operand.left, ops=[ast.Eq()], comparators=e.operand.comparators))
+    other = _token_compare(e)
+    if other is not None and isinstance(other, ast.Call) and call_name(other) == "encode" and isinstance(other.func, ast.Attribute):
+        other = other.func.value               # the bytes of the credential stand for the credential
+    return other
 
 
 def _mentions_token(e: ast.AST) -> bool:
@@ -339,6 +355,117 @@ def _c15_hooks(idx: Index, res: Result) -> None:
                   key="HOOK/%s/pre-view-effect" % (name or "?"))
 
 
+_RESTORERS_CACHE: Dict[int, Set[str]] = {}
+
+
+def _restorers(ci) -> Set[str]:
+    """Methods of the server class that restore an instance on demand: they call reconstruct_instance on the instance manager, or they
+    hand back what such a method answers (`return self.<restorer>(...)`).  The pinned name is _ensure_instance_exists."""
+    if id(ci) in _RESTORERS_CACHE:
+        return _RESTORERS_CACHE[id(ci)]
+    # (load_instance = the state of the one requested instance; the bulk loaders - start-up, POST /load-state - use load_state)
+    out = {m for m, defs in ci.methods.items() if any(call_name(c) == "reconstruct_instance" and (call_recv(c) or "").endswith("_instance_manager")
+                                                      for c in iter_calls(defs[-1].node))
+           and any(call_name(c) == "load_instance" for c in iter_calls(defs[-1].node))}
+    for _ in range(4):
+        for m, defs in ci.methods.items():
+            if m in out:
+                continue
+            rets = [r for r in walk_no_nested(defs[-1].node) if isinstance(r, ast.Return)]
+            if rets and all(isinstance(r.value, ast.Call) and call_recv(r.value) == "self" and call_name(r.value) in out for r in rets):
+                out.add(m)
+    out.add("_ensure_instance_exists")
+    _RESTORERS_CACHE[id(ci)] = out
+    return out
+
+
+def restore_function(idx: Index) -> FuncInfo:
+    """The method of the server class that carries out the on-demand restore (the one that calls reconstruct_instance): pinned
+    _ensure_instance_exists, or the helper it hands the work to."""
+    ci = server_class(idx)
+    direct = [m for m in sorted(_restorers(ci)) if m in ci.methods and any(call_name(c) == "reconstruct_instance" for c in iter_calls(ci.methods[m][-1].node))
+              and any(call_name(c) == "load_instance" for c in iter_calls(ci.methods[m][-1].node))]
+    pinned = "_ensure_instance_exists"
+    if pinned in direct or not direct:
+        return idx.func(SERVER, "BptkServer.%s" % pinned)
+    if len(direct) != 1:
+        raise AnalysisError("on-demand restore: %d methods call reconstruct_instance (%s)" % (len(direct), direct))
+    return ci.methods[direct[0]][-1]
+
+
+def _verdict_tables(ci, fn: ast.AST) -> Dict[str, Tuple[str, str]]:
+    """Locals of the gate that are a *verdict memo*: table name -> (key text, attribute).  The shape that is accepted:
+
+        M = self.A
+        if M is None or M[0] is not self._bearer_token:      # entries were made while the token was this very object
+            M = (self._bearer_token, dict());  self.A = M
+        T = M[1]
+        ... T.get(K) / T[K] ... T[K] = <verdict> ...           # one key expression K, a local bound once
+
+    and self.A is touched by nothing else in the class (None at construction apart).  An entry under K then records how the gate
+    decided an earlier request with the same K under the same token; the gate decides from K and the token alone."""
+    out: Dict[str, Tuple[str, str]] = {}
+    assigns = single_assignments(fn)
+    for tname, vals in assigns.items():
+        if len(vals) != 1 or not (isinstance(vals[0], ast.Subscript) and isinstance(vals[0].value, ast.Name) and const_int(vals[0].slice) == 1):
+            continue
+        mname = vals[0].value.id
+        mvals = assigns.get(mname, [])
+        attrs = [v for v in mvals if isinstance(v, ast.Attribute) and isinstance(v.value, ast.Name) and v.value.id == "self"]
+        fresh = [v for v in mvals if isinstance(v, ast.Tuple) and len(v.elts) == 2 and _is_token_attr(v.elts[0])
+                 and ((isinstance(v.elts[1], ast.Call) and call_name(v.elts[1]) == "dict" and not v.elts[1].args and not v.elts[1].keywords)
+                      or (isinstance(v.elts[1], ast.Dict) and not v.elts[1].keys))]
+        if len(attrs) != 1 or len(fresh) != 1 or len(mvals) != 2:
+            continue
+        attr = attrs[0].attr
+        # the guard under which the kept memo is used as it is
+        guard = None
+        for g in walk_no_nested(fn):
+            if isinstance(g, ast.If) and any(isinstance(x, ast.Assign) and x.value is fresh[0] for x in g.body):
+                kept = implied(g.test, False)
+                if any(isinstance(a, ast.Compare) and len(a.ops) == 1 and src(a.left) == "%s[0]" % mname and _is_token_attr(a.comparators[0])
+                       and ((isinstance(a.ops[0], ast.IsNot) and not t) or (isinstance(a.ops[0], ast.Is) and t)) for a, t in kept):
+                    guard = g
+        if guard is None:
+            continue
+        # the attribute belongs to the gate: nothing else in the class reads or writes it (None at construction apart)
+        foreign = False
+        for f2 in [x for x in ast.walk(ci.node) if isinstance(x, (ast.FunctionDef, ast.AsyncFunctionDef)) and x is not fn and not getattr(x, "_absorbed", False)]:
+            if any(x is fn for x in ast.walk(f2)):
+                continue
+            for x in ast.walk(f2):
+                if isinstance(x, ast.Attribute) and x.attr == attr:
+                    par_ok = False
+                    for a_ in ast.walk(f2):
+                        if isinstance(a_, ast.Assign) and any(t is x for t in a_.targets) and isinstance(a_.value, ast.Constant) and a_.value.value is None:
+                            par_ok = True
+                    if not par_ok:
+                        foreign = True
+        for st in ci.node.body:
+            if isinstance(st, ast.Assign) and any(isinstance(t, ast.Name) and t.id == attr for t in st.targets) and not (isinstance(st.value, ast.Constant) and st.value.value is None):
+                foreign = True
+        if foreign:
+            continue
+        # one key expression for every read and every store
+        keys = set()
+        okk = True
+        for x in walk_no_nested(fn):
+            if isinstance(x, ast.Subscript) and isinstance(x.value, ast.Name) and x.value.id == tname:
+                keys.add(src(x.slice))
+            if isinstance(x, ast.Call) and isinstance(x.func, ast.Attribute) and isinstance(x.func.value, ast.Name) and x.func.value.id == tname:
+                if x.func.attr == "get" and len(x.args) == 1:
+                    keys.add(src(x.args[0]))
+                elif x.func.attr not in ("clear",):
+                    okk = False
+        if not okk or len(keys) != 1:
+            continue
+        key = keys.pop()
+        if len(assigns.get(key, [])) != 1:
+            continue
+        out[tname] = (key, attr)
+    return out
+
+
 def _c15_gate(idx: Index, res: Result) -> None:
     gate = idx.func(SERVER, "BptkServer.token_required")
     inner = idx.func(SERVER, "BptkServer.token_required.decorated")
@@ -361,10 +488,31 @@ def _c15_gate(idx: Index, res: Result) -> None:
         raise AnalysisError("the gate never calls the wrapped handler")
 
     assigns = single_assignments(inner.node)
+    # verdict memos (see _verdict_tables): what is found under the key is what an earlier, identical request stored there
+    vtables = _verdict_tables(gate_cls, inner.node)
+    remembered: List[tuple] = []          # (checked, scheme, whole, verdict text or None) at the stores, from the first pass
+    second_pass = [False]
+
+    def _memo_read_of(v):
+        if isinstance(v, ast.Call) and isinstance(v.func, ast.Attribute) and v.func.attr == "get" and isinstance(v.func.value, ast.Name) \
+                and v.func.value.id in vtables and len(v.args) == 1:
+            return v.func.value.id
+        if isinstance(v, ast.Subscript) and isinstance(v.value, ast.Name) and v.value.id in vtables and isinstance(v.ctx, ast.Load):
+            return v.value.id
+        return None
 
     # facts: (configured: 'yes'|'no'|'?', checked: bool, scheme: bool, whole: bool, names known to be None)
     def transfer(node: Node, fact, label: str):
         conf, checked, scheme, whole, nones = fact
+        if node.kind == "stmt" and label != "exc" and isinstance(node.ast, ast.Assign) and len(node.ast.targets) == 1 \
+                and isinstance(node.ast.targets[0], ast.Name) and _memo_read_of(node.ast.value) is not None:
+            tid = node.ast.targets[0].id
+            base = frozenset(x for x in nones if x not in (tid, "+" + tid, "~" + tid) and not x.startswith("=%s=" % tid))
+            outs = [(conf, checked, scheme, whole, base | {tid})]                      # nothing remembered under the key
+            if second_pass[0]:
+                for ck, sc, wh, val in remembered:                                     # ... or what a store left there
+                    outs.append((conf, ck, sc, wh, base | ({"=%s=%s" % (tid, val)} if val is not None else {"+" + tid})))
+            return outs
         # names known to be None are recorded as "x", names known to hold an object (a response that was just built) as "+x",
         # names holding a string constant (a verdict such as "missing" / "wrong") as "=x=<value>"
         if node.kind == "stmt" and label != "exc" and isinstance(node.ast, ast.Assign):
@@ -372,6 +520,9 @@ def _c15_gate(idx: Index, res: Result) -> None:
                 if isinstance(t, ast.Name):
                     v = node.ast.value
                     nones = frozenset(x for x in nones if x not in (t.id, "+" + t.id) and not x.startswith("=%s=" % t.id))
+                    nones = frozenset(x for x in nones if x != "~" + t.id)
+                    if _token_equality(v) is not None:
+                        nones = nones | {"~" + t.id}      # the name is true exactly when the credential equals the token
                     if isinstance(v, ast.Constant) and isinstance(v.value, str):
                         nones = nones | {"=%s=%s" % (t.id, v.value)}
                     if is_none_or_false(v) and v is not None:
@@ -381,6 +532,10 @@ def _c15_gate(idx: Index, res: Result) -> None:
                         nones = nones | {"+" + t.id}
                     elif isinstance(v, ast.Name) and v.id in nones:
                         nones = nones | {t.id}
+                    if isinstance(v, ast.Name):
+                        for x in list(nones):
+                            if x.startswith("=%s=" % v.id):
+                                nones = nones | {"=%s=%s" % (t.id, x.split("=", 2)[2])}
         if node.kind == "test" and label in ("true", "false"):
             for atom, truth in implied(node.ast, label == "true"):
                 # <verdict> in TABLE / <verdict> == "text": decided where the verdict is known on this path
@@ -416,15 +571,33 @@ def _c15_gate(idx: Index, res: Result) -> None:
                     other = _token_compare(atom)
                     if other is not None and truth:
                         checked = True
+                    if isinstance(atom, ast.Name) and "~" + atom.id in nones and truth:
+                        checked = True
                     if _is_scheme_test(atom, assigns) and truth:
                         scheme = True
-                    if _is_len2_test(atom) and truth:
+                    if _is_len2_test(atom, assigns) and truth:
                         whole = True
                     if _is_prefix_test(atom) and truth:
                         scheme = True
         return [(conf, checked, scheme, whole, nones)]
 
     flow = Flow(cfg, [("?", False, False, False, frozenset())], transfer)
+    if vtables:
+        for n in cfg.stmt_nodes():
+            if n.kind == "stmt" and isinstance(n.ast, ast.Assign) and len(n.ast.targets) == 1 and isinstance(n.ast.targets[0], ast.Subscript) \
+                    and isinstance(n.ast.targets[0].value, ast.Name) and n.ast.targets[0].value.id in vtables:
+                for f in flow.at[n.id]:
+                    val = None
+                    if isinstance(n.ast.value, ast.Constant) and isinstance(n.ast.value.value, str):
+                        val = n.ast.value.value
+                    elif isinstance(n.ast.value, ast.Name):
+                        val = next((x.split("=", 2)[2] for x in f[4] if x.startswith("=%s=" % n.ast.value.id)), None)
+                    rec = (f[1], f[2], f[3], val)
+                    if rec not in remembered:
+                        remembered.append(rec)
+        second_pass[0] = True
+        flow = Flow(cfg, [("?", False, False, False, frozenset())], transfer)
+        res.ob("GATE", "verdict memo %s: %d remembered decisions modelled at the read" % (sorted(vtables), len(remembered)), True)
 
     # (2) dominance: the handler call is reached only checked (when a token may be configured)
     for n in fcalls:
@@ -479,7 +652,12 @@ def _c15_gate(idx: Index, res: Result) -> None:
         if isinstance(c.func, ast.Name) and c.func.id == fparam:
             continue
         nme = call_name(c)
-        ok = nme in GATE_ALLOWED_CALLS and not (call_recv(c) or "").startswith("self._")
+        recv_ = call_recv(c) or ""
+        ok = nme in GATE_ALLOWED_CALLS and not (recv_.startswith("self._") and recv_ != "self._bearer_token")
+        if nme == "clear" and recv_ in vtables:
+            ok = True                 # emptying the gate's own verdict memo
+        if nme in GATE_LOG_CALLS and (recv_ in ("logger", "logging", "log", "_logger", "_log") or (nme == "log" and isinstance(c.func, ast.Name))):
+            ok = True
         res.check("EFFECT", "call %s" % src(c.func), ok, inner.loc(c), inner.qual, src(c)[:100],
                   "the gate calls %s, which is not in the effect-free allow-list (header access, string "
                   "operations, make_response)" % src(c.func), key="EFFECT/decorated/call/%s" % src(c.func))
@@ -490,12 +668,15 @@ def _c15_gate(idx: Index, res: Result) -> None:
         elif isinstance(n, (ast.AugAssign, ast.AnnAssign)):
             tgts = [n.target]
         tgts = [x for t in tgts for x in (t.elts if isinstance(t, (ast.Tuple, ast.List)) else [t])]
+        tgts = [t.value if isinstance(t, ast.Starred) else t for t in tgts]
         for t in tgts:
             root = t
             while isinstance(root, (ast.Attribute, ast.Subscript)):
                 root = root.value
             ok = isinstance(root, ast.Name) and root.id != "self" and not (
                 isinstance(t, (ast.Attribute, ast.Subscript)) and root.id in ("request",))
+            if isinstance(t, ast.Attribute) and dotted(t.value) == "self" and t.attr in {a for _, a in vtables.values()}:
+                ok = True             # the gate's own verdict memo (touched by nothing else in the class)
             res.check("EFFECT", "store %s" % src(t), ok, inner.loc(n), inner.qual, norm_stmt(n),
                       "the gate stores to %s before deciding" % src(t), key="EFFECT/decorated/store/%s" % src(t))
 
@@ -518,11 +699,15 @@ def _const_keys(ci, e: ast.AST) -> Optional[Set[str]]:
     return None
 
 
-def _header_expr(e: ast.AST) -> bool:
-    """request.headers["Authorization"] / request.headers.get("Authorization"...)"""
-    if isinstance(e, ast.Subscript) and dotted(e.value) == "request.headers" and const_str(e.slice) == "Authorization":
+def _header_expr(e: ast.AST, assigns=None) -> bool:
+    """request.headers["Authorization"] / request.headers.get("Authorization"...)  (request.headers possibly through a local name)"""
+    def is_headers(b):
+        if dotted(b) == "request.headers":
+            return True
+        return isinstance(b, ast.Name) and assigns is not None and bool(assigns.get(b.id)) and all(dotted(v) == "request.headers" for v in assigns[b.id])
+    if isinstance(e, ast.Subscript) and is_headers(e.value) and const_str(e.slice) == "Authorization":
         return True
-    if isinstance(e, ast.Call) and call_name(e) == "get" and call_recv(e) == "request.headers" and e.args \
+    if isinstance(e, ast.Call) and call_name(e) == "get" and isinstance(e.func, ast.Attribute) and is_headers(e.func.value) and e.args \
             and const_str(e.args[0]) == "Authorization":
         return True
     return False
@@ -537,6 +722,8 @@ def _resolve(e: ast.AST, assigns: Dict[str, List[ast.AST]], depth: int = 0) -> L
                 continue
             out += _resolve(v, assigns, depth + 1)
         return out
+    if isinstance(e, ast.IfExp) and depth < 4:            # header = H if "Authorization" in headers else <sentinel>
+        return _resolve(e.body, assigns, depth + 1) + _resolve(e.orelse, assigns, depth + 1)
     return [e]
 
 
@@ -550,12 +737,24 @@ def _is_scheme_test(atom: ast.AST, assigns) -> bool:
     return False
 
 
-def _is_len2_test(atom: ast.AST) -> bool:
+def _is_len2_test(atom: ast.AST, assigns=None) -> bool:
+    """len(parts) == 2, or len(rest) == 1 with rest = parts[1:]"""
     if isinstance(atom, ast.Compare) and len(atom.ops) == 1 and isinstance(atom.ops[0], ast.Eq):
         for a, b in ((atom.left, atom.comparators[0]), (atom.comparators[0], atom.left)):
-            if isinstance(a, ast.Call) and call_name(a) == "len" and const_int(b) == 2:
-                return True
+            if isinstance(a, ast.Call) and call_name(a) == "len" and len(a.args) == 1:
+                if const_int(b) == 2 and not _tail_of(a.args[0], assigns):
+                    return True
+                if const_int(b) == 1 and _tail_of(a.args[0], assigns):
+                    return True
     return False
+
+
+def _tail_of(e: ast.AST, assigns) -> Optional[ast.AST]:
+    """X when *e* is X[1:] (directly or through a local)"""
+    for v in (_resolve(e, assigns) if assigns is not None else [e]):
+        if isinstance(v, ast.Subscript) and isinstance(v.slice, ast.Slice) and const_int(v.slice.lower) == 1 and v.slice.upper is None and v.slice.step is None:
+            return v.value
+    return None
 
 
 def _is_prefix_test(atom: ast.AST) -> bool:
@@ -581,6 +780,10 @@ def _c15_credential(idx, res, inner, cfg, flow, fcalls, assigns) -> None:
                 other = _token_compare(atom)
                 if other is not None and truth:
                     compared.append((other, atom))
+    # ... or the comparison's result is kept in a local that is tested later (same = compare_digest(...); if not same: refuse)
+    for n in cfg.stmt_nodes():
+        if n.kind == "stmt" and isinstance(n.ast, ast.Assign) and _token_equality(n.ast.value) is not None:
+            compared.append((_token_equality(n.ast.value), n.ast.value))
     if not compared:
         raise AnalysisError("no comparison against self._bearer_token found in the gate")
     seen = set()
@@ -614,7 +817,7 @@ def _c15_credential(idx, res, inner, cfg, flow, fcalls, assigns) -> None:
 
 def _cred_shape(v: ast.AST, atom: ast.AST, assigns) -> Tuple[str, Set[str]]:
     # A: whole header against "Bearer " + token
-    if _header_expr(v):
+    if _header_expr(v, assigns):
         other_side = [x for x in (atom.left, atom.comparators[0])] if isinstance(atom, ast.Compare) else list(atom.args)
         for o in other_side:
             if _mentions_token(o) and any("bearer" in s.lower() for s in str_consts_in(o)):
@@ -624,11 +827,14 @@ def _cred_shape(v: ast.AST, atom: ast.AST, assigns) -> Tuple[str, Set[str]]:
     if isinstance(v, ast.Subscript):
         base = v.value
         k = const_int(v.slice)
+        tail = _tail_of(base, assigns)
+        if tail is not None and k is not None and k >= 0:
+            base, k = tail, k + 1                     # rest[0] with rest = parts[1:] is parts[1]
         bases = _resolve(base, assigns)
         for b in bases:
             if isinstance(b, ast.Call) and call_name(b) == "split" and isinstance(b.func, ast.Attribute):
                 recv = _resolve(b.func.value, assigns)
-                if any(_header_expr(r) or (isinstance(r, ast.Call) and call_name(r) == "strip") for r in recv):
+                if any(_header_expr(r, assigns) or (isinstance(r, ast.Call) and call_name(r) == "strip") for r in recv):
                     maxsplit = const_int(b.args[1]) if len(b.args) >= 2 else None
                     for kw in b.keywords:
                         if kw.arg == "maxsplit":
@@ -642,7 +848,7 @@ def _cred_shape(v: ast.AST, atom: ast.AST, assigns) -> Tuple[str, Set[str]]:
                 if k == 2:
                     return "partition", {"scheme"}
         # D: slice
-        if isinstance(v.slice, ast.Slice) and any(_header_expr(r) for r in _resolve(base, assigns)):
+        if isinstance(v.slice, ast.Slice) and any(_header_expr(r, assigns) for r in _resolve(base, assigns)):
             return "slice", {"scheme"}
     if isinstance(v, ast.Call) and call_name(v) == "removeprefix":
         return "removeprefix", {"scheme"}
@@ -670,8 +876,23 @@ def _has_call(node: ast.AST, name: str) -> bool:
     return any(call_name(c) == name and isinstance(c.func, ast.Attribute) for c in iter_calls(node))
 
 
+def _is_logging_call(c: ast.Call) -> bool:
+    """logger.debug(...) and friends: the standard library's logging reports its own failures (Handler.handleError) and does not raise
+    them into the caller"""
+    return isinstance(c.func, ast.Attribute) and c.func.attr in ("debug", "info", "warning", "error", "exception", "critical") \
+        and (dotted(c.func.value) or "") in ("logger", "_logger", "logging", "log", "_log", "LOGGER", "LOG")
+
+
 def _lock_cfg(fi: FuncInfo, total: bool) -> CFG:
-    nonraising = (lambda c: call_name(c) in LOCK_API and isinstance(c.func, ast.Attribute)) if total else None
+    sa_ = single_assignments(fi.node)
+    sized = {n_ for n_, vs_ in sa_.items() if vs_ and all(isinstance(v_, (ast.List, ast.Dict, ast.Tuple, ast.Set, ast.ListComp, ast.DictComp)) for v_ in vs_)}
+
+    def nonraising(c):
+        if _is_logging_call(c):
+            return True
+        if isinstance(c.func, ast.Name) and c.func.id == "len" and len(c.args) == 1 and isinstance(c.args[0], ast.Name) and c.args[0].id in sized:
+            return True               # len() of a local that only ever holds a list/dict/tuple built here
+        return total and call_name(c) in LOCK_API and isinstance(c.func, ast.Attribute)
     return build_cfg(fi.node, fi.qual, nonraising)
 
 
@@ -687,6 +908,9 @@ def _lock_transfer(node: Node, fact, label: str):
     return [fact]
 
 
+_BENIGN_RESTORERS: Set[str] = set()      # filled by check_c18 from _restorers() of the server class
+
+
 def _owner_transfer(node: Node, fact, label: str):
     """Whose lock is it?  '?' nothing known (another request may hold it), 'F' is_locked() was seen false on this path, 'M' this
     request called lock()."""
@@ -695,7 +919,7 @@ def _owner_transfer(node: Node, fact, label: str):
         # instance - if that failed the receiver of unlock() would not even be bound) do not lead into the handler
         calls_ = {call_name(c) for c in ast.walk(node.ast) if isinstance(c, ast.Call)}
         subs_ = [x for x in ast.walk(node.ast) if isinstance(x, ast.Subscript) and isinstance(x.ctx, ast.Load) and not isinstance(x.value, ast.Attribute)]
-        if calls_ <= {"make_response", "is_locked", "lock", "unlock", "get_instance", "_ensure_instance_exists", "log"} and not subs_:
+        if calls_ <= ({"make_response", "is_locked", "lock", "unlock", "get_instance", "_ensure_instance_exists", "log"} | _BENIGN_RESTORERS) and not subs_:
             return []
     if node.ast is not None and node.kind in ("stmt", "test", "iter", "with") and label not in ("exc", "genclose"):
         probe = node.ast.iter if node.kind == "iter" else node.ast
@@ -727,6 +951,8 @@ def check_c18(idx: Index, tier: str, res: Result) -> None:
     res.assumptions = ["bptk.lock/unlock/is_locked are guarded dict accesses and cannot raise (checked structurally)",
                        "werkzeug closes a streamed generator when the client goes away (GeneratorExit at a yield)"]
     ci = server_class(idx)
+    _BENIGN_RESTORERS.clear()
+    _BENIGN_RESTORERS.update(_restorers(ci))
     bcls = idx.cls(BPTK, "bptk")
     api = {}
     for n in LOCK_API:
@@ -913,7 +1139,7 @@ def _own_calls(fn: ast.AST) -> List[ast.Call]:
 TIMEDELTA_UNITS = ["weeks", "days", "hours", "minutes", "seconds", "milliseconds", "microseconds"]
 
 
-def _must_event_before_exit(fi: FuncInfo, is_event, failure_ok: bool = True):
+def _must_event_before_exit(fi: FuncInfo, is_event, failure_ok: bool = True, is_event_stmt=None):
     """Normal-exit paths of *fi* that pass no event.  A ``return None/False`` is a
     failure exit and exempt when *failure_ok*.  Returns list of witness strings."""
     cfg = build_cfg(fi.node, fi.qual)
@@ -922,6 +1148,8 @@ def _must_event_before_exit(fi: FuncInfo, is_event, failure_ok: bool = True):
         if node.ast is not None and label not in ("exc", "genclose") and node.kind in ("stmt", "test", "iter"):
             probe = node.ast.iter if node.kind == "iter" else node.ast
             if any(is_event(c) for c in iter_calls(probe)):
+                fact = True
+            if is_event_stmt is not None and node.kind == "stmt" and is_event_stmt(node.ast):
                 fact = True
         return [fact]
     flow = Flow(cfg, [False], tr)
@@ -1013,17 +1241,46 @@ def check_c17(idx: Index, tier: str, res: Result) -> None:
 
     # ---- expiry comparison -------------------------------------------------
     kinds: Dict[str, str] = {}
-    for name, vals in single_assignments(sweep.node).items():
-        ks = set()
-        for v in vals:
-            if isinstance(v, ast.Call) and call_name(v) in ("now", "utcnow"):
-                ks.add("NOW")
-            elif isinstance(v, ast.Call) and call_name(v) == "timedelta":
-                ks.add("TD")
-            elif isinstance(v, ast.Subscript) and const_str(v.slice) == "time":
-                ks.add("LAST")
-        if len(ks) == 1:
-            kinds[name] = ks.pop()
+    _sa = single_assignments(sweep.node)
+    # tuples the manager keeps per instance (a remembered timedelta next to what it was computed from): table attribute -> kinds by position
+    memo_rows: Dict[str, List[Set[str]]] = {}
+
+    def kind_of(v, depth=0) -> Optional[str]:
+        if depth > 6:
+            return None
+        if isinstance(v, ast.Call) and call_name(v) in ("now", "utcnow"):
+            return "NOW"
+        if isinstance(v, ast.Call) and call_name(v) == "timedelta":
+            return "TD"
+        if isinstance(v, ast.Subscript) and const_str(v.slice) == "time":
+            return "LAST"
+        if isinstance(v, ast.IfExp):                              # timedelta(**r["timeout"]) if "timeout" in r else timedelta(hours=12)
+            a, b = kind_of(v.body, depth + 1), kind_of(v.orelse, depth + 1)
+            return a if a == b else None
+        if isinstance(v, ast.Name):
+            if v.id in kinds:
+                return kinds[v.id]
+            ks_ = {kind_of(x, depth + 1) for x in _sa.get(v.id, [])}
+            return ks_.pop() if len(ks_) == 1 else None
+        if isinstance(v, ast.Subscript) and isinstance(v.value, ast.Name) and const_int(v.slice) is not None:
+            # memo[i] with memo = self._T.get(key): the kind of what the sweep stores at position i of the rows of self._T
+            for src_ in _sa.get(v.value.id, []):
+                t_ = src_.func.value if isinstance(src_, ast.Call) and call_name(src_) == "get" and isinstance(src_.func, ast.Attribute) else (
+                    src_.value if isinstance(src_, ast.Subscript) else None)
+                attr_ = dotted(t_) if t_ is not None else None
+                if attr_ and attr_.startswith("self."):
+                    rows = [n_.value for n_ in walk_no_nested(sweep.node) if isinstance(n_, ast.Assign) and isinstance(n_.targets[0], ast.Subscript)
+                            and dotted(n_.targets[0].value) == attr_ and isinstance(n_.value, ast.Tuple)]
+                    i_ = const_int(v.slice)
+                    ks_ = {kind_of(r_.elts[i_], depth + 1) for r_ in rows if len(r_.elts) > i_}
+                    if rows and len(ks_) == 1:
+                        return ks_.pop()
+        return None
+    for _round in range(3):
+        for name, vals in _sa.items():
+            ks = {kind_of(v) for v in vals}
+            if len(ks) == 1 and None not in ks:
+                kinds[name] = next(iter(ks))
     # durations derived from the clock and the last access (idle = now - last)
     derived: Dict[str, Dict[str, int]] = {}
     for name, vals in single_assignments(sweep.node).items():
@@ -1117,7 +1374,10 @@ def check_c17(idx: Index, tier: str, res: Result) -> None:
               % op.__name__, key="EXPIRY/_timeout_instances/comparator")
     # timeout value comes from the instance's own "timeout" record
     tds = [c for c in iter_calls(sweep.node) if call_name(c) == "timedelta"]
-    per_inst = [c for c in tds if any(k.arg is None and const_str(getattr(k.value, "slice", None)) == "timeout" for k in c.keywords)
+    def _own_timeout(v) -> bool:
+        vals_ = _resolve(v, _sa)
+        return bool(vals_) and all(isinstance(x, ast.Subscript) and const_str(x.slice) == "timeout" for x in vals_)
+    per_inst = [c for c in tds if any(k.arg is None and _own_timeout(k.value) for k in c.keywords)
                 or (len({k.arg for k in c.keywords if k.arg}) >= 7 and all(
                     isinstance(k.value, ast.Subscript) and const_str(k.value.slice) == k.arg for k in c.keywords if k.arg))]
     res.check("EXPIRY", "timedelta built from the instance's own timeout record", bool(per_inst), sweep.loc(), sweep.qual,
@@ -1149,6 +1409,16 @@ def check_c17(idx: Index, tier: str, res: Result) -> None:
         guard_tests = [a_ for a_, _t in conds] + [g.test for g in walk_no_nested(sweep.node) if isinstance(g, ast.If) and any(r is x for r in early for b in g.body for x in ast.walk(b))]
         guard_attrs = {x.attr for t_ in guard_tests for x in ast.walk(t_) if isinstance(x, ast.Attribute) and isinstance(x.value, ast.Name) and x.value.id == "self"
                        and x.attr != "_instances"}
+        def _table_empty(t_) -> bool:
+            """not self._instances / len(self._instances) == 0: the table is empty"""
+            if isinstance(t_, ast.UnaryOp) and isinstance(t_.op, ast.Not) and dotted(t_.operand) == "self._instances":
+                return True
+            return isinstance(t_, ast.Compare) and len(t_.ops) == 1 and isinstance(t_.ops[0], ast.Eq) and isinstance(t_.left, ast.Call) and call_name(t_.left) == "len" \
+                and t_.left.args and dotted(t_.left.args[0]) == "self._instances" and const_int(t_.comparators[0]) == 0
+        early_tests = [g.test for g in walk_no_nested(sweep.node) if isinstance(g, ast.If) and any(r is x for r in early for b in g.body for x in ast.walk(b))]
+        if early and not conds and len(early_tests) == len(early) and all(_table_empty(t_) for t_ in early_tests):
+            early = []          # leaving before the walk when there is nothing to walk
+            res.ob("EXPIRY", "the sweep returns early only when the table is empty", True)
         if (early or conds) and guard_attrs:
             writers = [defs[-1] for nm_, defs in im.methods.items() if any(
                 isinstance(n_, ast.Assign) and any(isinstance(t_, ast.Subscript) and dotted(t_.value) == "self._instances" for t_ in n_.targets)
@@ -1172,15 +1442,23 @@ def check_c17(idx: Index, tier: str, res: Result) -> None:
     res.check("TOUCH", "_update_instance_timestamp stores now() into ['time']", st_ok, upd.loc(), upd.qual, "['time'] = now()",
               "the timestamp update does not store the current time", key="TOUCH/_update_instance_timestamp/store")
 
+    def _touch_store(st) -> bool:
+        """self._instances[k]["time"] = now(): what _update_instance_timestamp does, written in place"""
+        return isinstance(st, ast.Assign) and any(isinstance(t, ast.Subscript) and const_str(t.slice) == "time" and isinstance(t.value, ast.Subscript)
+                                                   and dotted(t.value.value) == "self._instances" for t in st.targets) \
+            and isinstance(st.value, ast.Call) and call_name(st.value) in ("now", "utcnow")
+
     def methods_with(event_name: str) -> Set[str]:
         out = set()
+        in_place = _touch_store if "timestamp" in event_name else None
         for name, defs in im.methods.items():
             fi = defs[-1]
             if name == event_name:
                 continue
-            if not any(call_name(c) == event_name for c in _own_calls(fi.node)):
+            if not any(call_name(c) == event_name for c in _own_calls(fi.node)) and not (
+                    in_place is not None and any(in_place(st) for st in walk_no_nested(fi.node))):
                 continue
-            bad = _must_event_before_exit(fi, lambda c: call_name(c) == event_name)
+            bad = _must_event_before_exit(fi, lambda c: call_name(c) == event_name, is_event_stmt=in_place)
             res.check("TOUCH" if "timestamp" in event_name else "SWEEP",
                       "InstanceManager.%s calls %s on every serving path" % (name, event_name), not bad, fi.loc(), fi.qual,
                       event_name, "a serving path of %s skips %s: %s" % (fi.qual, event_name, bad[0] if bad else ""),
@@ -1212,7 +1490,7 @@ def check_c17(idx: Index, tier: str, res: Result) -> None:
                 for c in iter_calls(probe):
                     if call_name(c) in events and (call_recv(c) or "").endswith("_instance_manager"):
                         touched = True
-                    if call_name(c) in handler_names and call_recv(c) == "self" and call_name(c) != "_ensure_instance_exists":
+                    if call_name(c) in handler_names and call_recv(c) == "self" and call_name(c) not in _restorers(ci):
                         touched = True      # delegation to a sibling handler that is checked itself
             if node.ast is not None and label not in ("exc", "genclose") and node.kind in ("stmt", "test", "iter"):
                 if node.kind == "stmt" and isinstance(node.ast, ast.Assign) and len(node.ast.targets) == 1 \
@@ -1326,7 +1604,7 @@ def check_c17(idx: Index, tier: str, res: Result) -> None:
         def tr(node: Node, fact, label):
             if node.ast is not None and node.kind in ("stmt", "test", "iter"):
                 probe = node.ast.iter if node.kind == "iter" else node.ast
-                if any(call_name(c) == "_ensure_instance_exists" for c in iter_calls(probe)):
+                if any(call_name(c) in _restorers(ci) for c in iter_calls(probe)):
                     fact = True
             return [fact]
         flow = Flow(cfg, [False], tr)
@@ -1339,9 +1617,9 @@ def check_c17(idx: Index, tier: str, res: Result) -> None:
             for c in iter_calls(probe):
                 if call_name(c) in access and (call_recv(c) or "").endswith("_instance_manager"):
                     nacc += 1
-                    if False in flow.at[n.id] and not any(call_name(x) == "_ensure_instance_exists" for x in iter_calls(probe)):
+                    if False in flow.at[n.id] and not any(call_name(x) in _restorers(ci) for x in iter_calls(probe)):
                         bad = (n, c)
-        delegates = any(call_name(c) in handler_names and call_recv(c) == "self" and call_name(c) != "_ensure_instance_exists"
+        delegates = any(call_name(c) in handler_names and call_recv(c) == "self" and call_name(c) not in _restorers(ci)
                         for c in _own_calls(fi.node))
         if nacc == 0 and not delegates:
             raise AnalysisError("instance-scoped handler %s never accesses its instance" % r.handler)
@@ -1406,11 +1684,29 @@ def check_c17(idx: Index, tier: str, res: Result) -> None:
             res.check("WIRING", "%s saves the instance's timeout unchanged" % cname, ok, sv.loc(v), sv.qual, src(v)[:80], why,
                       key="WIRING/%s._save_instance/timeout-%s" % (cname, "truncated" if trunc else "changed"))
         ld = ci_.methods["_load_instance"][-1]
+        # what is handed to InstanceState as its timeout (by keyword, or by the position of the field), through locals
+        from ..util import deref as _deref_w
+        isc = idx.module(ADAPTER).classes.get("InstanceState")
+        fields = [st.target.id for st in isc.node.body if isinstance(st, ast.AnnAssign) and isinstance(st.target, ast.Name)] if isc is not None else []
+        handed = []
+        for c_ in iter_calls(ld.node):
+            if call_name(c_) == "InstanceState":
+                kwv = [k.value for k in c_.keywords if k.arg == "timeout"]
+                if kwv:
+                    handed.append(kwv[0])
+                elif "timeout" in fields and len(c_.args) > fields.index("timeout"):
+                    handed.append(c_.args[fields.index("timeout")])
         rd = [n for n in walk_no_nested(ld.node) if isinstance(n, ast.Assign) and isinstance(n.targets[0], ast.Name) and n.targets[0].id == "timeout"]
-        ok = bool(rd) and all(_last_key(n.value) == "timeout" for n in rd)
+        if handed:
+            ok = all(_last_key(_deref_w(ld.node, h_)) == "timeout" for h_ in handed)
+            rd = [h_ for h_ in handed if _last_key(_deref_w(ld.node, h_)) != "timeout"] or handed
+            shown, where_ = src(_deref_w(ld.node, rd[0]))[:90], ld.loc(rd[0])
+        else:
+            ok = bool(rd) and all(_last_key(n.value) == "timeout" for n in rd)
+            shown, where_ = (norm_stmt(rd[0])[:90] if rd else ""), (ld.loc(rd[0]) if rd else ld.loc())
         nad += 1
-        res.check("WIRING", "%s loads the timeout from the 'timeout' field" % cname, ok, ld.loc(rd[0]) if rd else ld.loc(), ld.qual,
-                  norm_stmt(rd[0])[:90] if rd else "", "the restored timeout is read from %s" % (src(rd[0].value)[:60] if rd else "nothing"),
+        res.check("WIRING", "%s loads the timeout from the 'timeout' field" % cname, ok, where_, ld.qual,
+                  shown, "the restored timeout is read from %s" % (shown or "nothing"),
                   key="WIRING/%s._load_instance/timeout" % cname)
     res.floor("external-state timeout save/load sites", nad, 2)
 
@@ -1518,7 +1814,7 @@ def check_c16(idx: Index, tier: str, res: Result) -> None:
                     res.check("OWNID", "%s: %s(%s)" % (r.handler, call_name(c), a0), a0 == "instance_uuid", f.loc(c), f.qual, src(c)[:100],
                               "the handler for %s addresses instance state with %s instead of its own instance_uuid" % (r.path, a0 or "nothing"),
                               key="OWNID/%s/%s" % (r.handler, call_name(c)))
-                if call_name(c) == "_ensure_instance_exists":
+                if call_name(c) in _restorers(ci) and call_recv(c) == "self":
                     a0 = src(c.args[0]) if c.args else ""
                     res.check("OWNID", "%s: _ensure_instance_exists(%s)" % (r.handler, a0), a0 == "instance_uuid", f.loc(c), f.qual, src(c),
                               "lazy restore of %s" % a0, key="OWNID/%s/_ensure_instance_exists" % r.handler)
@@ -1532,7 +1828,7 @@ def check_c16(idx: Index, tier: str, res: Result) -> None:
     res.floor("instance-manager calls in scoped handlers", ncalls, 12)
     # the on-demand restore concerns the requested instance only: it never reads the state of all instances, and what it reconstructs is
     # the id it was asked for (reconstructing an instance that is live replaces its object - a request for one instance would reset another)
-    ens = idx.func(SERVER, "BptkServer._ensure_instance_exists")
+    ens = restore_function(idx)
     ep = params(ens.node)[1] if len(params(ens.node)) > 1 else "instance_uuid"
     bulk = [c for c in iter_calls(ens.node, into_nested=True) if call_name(c) == "load_state"]
     res.check("OWNID", "the on-demand restore reads the requested instance's state only", not bulk, ens.loc(bulk[0]) if bulk else ens.loc(), ens.qual,
